@@ -346,6 +346,7 @@ func init() {
 	})
 
 	reg("C17", "C17.9", "T11,T12", "the printed configuration loads back: a time range is printed as hour = minute/60 and minute%60 of its own bounds (24:00 stays 24:00), never through the clock formatter", timeRangePrintRule)
+	reg("C15", "C15.9", "T6,T11,T9", "an interval specification is read as written: begin:end components in that order, names through tables that agree with the calendar's numbering, HH:MM as hour*60+minute, each value stored in its own field; reversed, empty and out-of-calendar ranges are rejected", intervalParseRule)
 	reg("C15", "C15.6", "T11,T12", "a time range prints as it parses: hour = minute/60, minute = minute%60 of its own bounds (24:00 stays 24:00)", timeRangePrintRule)
 
 	reg("C17", "C17.6", "T11,T3", "the status API serves the marshalled configuration; the raw input is only kept for Load and never served", func(o *Ob) {
